@@ -272,11 +272,32 @@ def r_cycle(c):
             "revisit-raises-CycleError", where,
             "revisiting a node whose level is unknown does not raise CycleError")
     seen = cyc[0]["$seen"] if cyc else "seen"
-    done = find(inner, f"if {tid} in $levels:\n    return $levels[{tid}]")
-    levels = done[0]["$levels"] if done else "?"
+    # the table of finished nodes is the one the search stores the node's level in;
+    # a finished node is returned from it (`if t in L: return L[t]`, or through
+    # `L.get(t)` and a test for None)
+    stores = {ast.unparse(a.targets[0].value) for a in ast.walk(inner)
+              if isinstance(a, ast.Assign) and isinstance(a.targets[0], ast.Subscript)
+              and ast.unparse(a.targets[0].slice) == tid}
+    levels = stores.pop() if len(stores) == 1 else "?"
+
+    def reads_levels(n):
+        return (isinstance(n, ast.Compare) and ast.unparse(n) == f"{tid} in {levels}") \
+            or (isinstance(n, ast.Call) and ast.unparse(n.func) == f"{levels}.get"
+                and n.args and ast.unparse(n.args[0]) == tid) \
+            or (isinstance(n, ast.Subscript) and isinstance(n.ctx, ast.Load)
+                and ast.unparse(n.value) == levels and ast.unparse(n.slice) == tid)
+    from_levels = {t.id for a in ast.walk(inner) if isinstance(a, ast.Assign)
+                   and reads_levels(a.value) for t in a.targets if isinstance(t, ast.Name)}
+    done = [r for i in ast.walk(inner) if isinstance(i, ast.If)
+            and (any(reads_levels(x) for x in ast.walk(i.test))
+                 or any(isinstance(x, ast.Name) and x.id in from_levels
+                        for x in ast.walk(i.test)))
+            for r in i.body if isinstance(r, ast.Return) and r.value is not None
+            and (reads_levels(r.value) or (isinstance(r.value, ast.Name)
+                                           and r.value.id in from_levels))]
 
     def cl(n):
-        if isinstance(n, ast.Compare) and ast.unparse(n) == f"{tid} in {levels}":
+        if reads_levels(n):
             return "DONE?"
         if isinstance(n, ast.Compare) and ast.unparse(n) == f"{tid} in {seen}":
             return "SEEN?"
